@@ -103,7 +103,6 @@ class NetworkXGraphStorageDisjoint:
                     # graph already present, warn and exit
                     if self.log is not None:
                         self.log.warn('Attempting to insert a graph with the same GraphID, skipping')
-                    self.lock.release()
                     return
                 # relabel incoming graph nodes to integers, then add
                 temp_graph = nx.convert_node_labels_to_integers(graph, 1)
